@@ -4,6 +4,7 @@ import (
 	"context"
 	"fmt"
 	"os"
+	"sort"
 	"runtime"
 	"strings"
 	"sync"
@@ -54,20 +55,27 @@ type attemptResult struct {
 	snapshotNote   string
 }
 
-func libraryGoroutines() []string {
+// libraryGoroutines lists goroutines started by gobinlog or by its driver: id -> "top frame".
+func libraryGoroutines() map[string]string {
 	buf := make([]byte, 1<<20)
 	n := runtime.Stack(buf, true)
-	var out []string
+	out := map[string]string{}
 	for _, g := range strings.Split(string(buf[:n]), "\n\n") {
-		if strings.Contains(g, "Breeze0806/gobinlog.") || strings.Contains(g, "Breeze0806/mysql.") {
-			// frames of the harness itself calling into the library do not count: look for library-started goroutines
-			if strings.Contains(g, "created by github.com/Breeze0806/gobinlog") || strings.Contains(g, "created by github.com/Breeze0806/mysql") {
-				first := strings.SplitN(g, "\n", 3)
-				top := ""
-				if len(first) > 1 {
-					top = first[1]
+		if strings.Contains(g, "created by github.com/Breeze0806/gobinlog") || strings.Contains(g, "created by github.com/Breeze0806/mysql") {
+			lines := strings.SplitN(g, "\n", 3)
+			top := ""
+			if len(lines) > 1 {
+				top = strings.TrimSpace(lines[1])
+			}
+			if i := strings.IndexByte(top, '('); i > 0 && strings.HasSuffix(top, ")") {
+				// drop the argument list
+				if j := strings.LastIndexByte(top, '('); j > 0 {
+					top = top[:j]
 				}
-				out = append(out, strings.TrimSpace(first[0])+" "+strings.TrimSpace(top))
+			}
+			id := strings.Fields(lines[0])
+			if len(id) >= 2 {
+				out[id[1]] = strings.TrimPrefix(top, "github.com/Breeze0806/")
 			}
 		}
 	}
@@ -81,6 +89,7 @@ func runAttempt(s *gobinlog.Streamer, m *simMaster, h *hist, mapper *tblMapper, 
 	defer streamMu.Unlock()
 	var res attemptResult
 	res.snapshotsEqual = true
+	preexisting := libraryGoroutines()
 	mapper.mode = o.mapperMode
 	m.resetProgress()
 	before := m.connCount()
@@ -280,7 +289,13 @@ func runAttempt(s *gobinlog.Streamer, m *simMaster, h *hist, mapper *tblMapper, 
 	// no goroutine started by the library may remain
 	deadline := time.Now().Add(1500 * time.Millisecond)
 	for {
-		res.leaked = libraryGoroutines()
+		res.leaked = nil
+		for id, top := range libraryGoroutines() {
+			if _, was := preexisting[id]; !was {
+				res.leaked = append(res.leaked, top)
+			}
+		}
+		sort.Strings(res.leaked)
 		if len(res.leaked) == 0 || time.Now().After(deadline) {
 			break
 		}
